@@ -3,8 +3,10 @@ package simrt
 import (
 	"runtime"
 	"sync"
+	"sync/atomic"
 )
 
+//go:norace
 func newSiteCache() *sync.Map { return &sync.Map{} }
 
 // Mutex replaces sync.Mutex in instrumented packages. The logical state lives in held; the
@@ -16,6 +18,7 @@ type Mutex struct {
 	real  sync.Mutex
 }
 
+//go:norace
 func (m *Mutex) Lock() {
 	s := cur()
 	if s == nil {
@@ -54,6 +57,7 @@ func (m *Mutex) Lock() {
 	m.real.Lock()
 }
 
+//go:norace
 func (m *Mutex) TryLock() bool {
 	if m.held {
 		return false
@@ -69,6 +73,7 @@ func (m *Mutex) TryLock() bool {
 	return true
 }
 
+//go:norace
 func (m *Mutex) Unlock() {
 	if !m.held {
 		panic("sync: unlock of unlocked mutex")
@@ -90,6 +95,7 @@ type RWMutex struct {
 	real           sync.RWMutex
 }
 
+//go:norace
 func (m *RWMutex) Lock() {
 	s := cur()
 	if s == nil {
@@ -131,6 +137,7 @@ func (m *RWMutex) Lock() {
 	m.real.Lock()
 }
 
+//go:norace
 func (m *RWMutex) Unlock() {
 	if !m.writer {
 		panic("sync: Unlock of unlocked RWMutex")
@@ -153,6 +160,7 @@ func (m *RWMutex) Unlock() {
 	}
 }
 
+//go:norace
 func (m *RWMutex) RLock() {
 	s := cur()
 	if s == nil {
@@ -193,6 +201,7 @@ func (m *RWMutex) RLock() {
 	m.real.RLock()
 }
 
+//go:norace
 func (m *RWMutex) RUnlock() {
 	if m.readers <= 0 {
 		panic("sync: RUnlock of unlocked RWMutex")
@@ -204,6 +213,7 @@ func (m *RWMutex) RUnlock() {
 	}
 }
 
+//go:norace
 func (m *RWMutex) TryLock() bool {
 	if m.writer || m.readers > 0 {
 		return false
@@ -213,6 +223,7 @@ func (m *RWMutex) TryLock() bool {
 	return true
 }
 
+//go:norace
 func (m *RWMutex) TryRLock() bool {
 	if m.writer || m.writersWaiting > 0 {
 		return false
@@ -222,14 +233,20 @@ func (m *RWMutex) TryRLock() bool {
 	return true
 }
 
+//go:norace
 func (m *RWMutex) RLocker() sync.Locker { return (*rlocker)(m) }
 
 type rlocker RWMutex
 
-func (r *rlocker) Lock()   { (*RWMutex)(r).RLock() }
+//go:norace
+func (r *rlocker) Lock() { (*RWMutex)(r).RLock() }
+
+//go:norace
 func (r *rlocker) Unlock() { (*RWMutex)(r).RUnlock() }
 
 // acquireFor performs the acquisition a parked task is waiting for (the lock is free).
+//
+//go:norace
 func (s *Sim) acquireFor(t *Task) {
 	if t.grant {
 		t.grant = false
@@ -253,29 +270,33 @@ func (s *Sim) acquireFor(t *Task) {
 // Once replaces sync.Once (whose internal mutex would otherwise block a second caller in a
 // way the scheduler cannot see while the first caller is parked inside f).
 type Once struct {
-	done bool
+	done atomic.Bool // atomic: the fast path must give the happens-before edge sync.Once gives
 	m    Mutex
 }
 
+//go:norace
 func (o *Once) Do(f func()) {
-	if o.done {
+	if o.done.Load() {
 		return
 	}
 	o.m.Lock()
 	defer o.m.Unlock()
-	if !o.done {
-		defer func() { o.done = true }()
+	if !o.done.Load() {
+		defer o.done.Store(true)
 		f()
 	}
 }
 
 // WaitGroup replaces sync.WaitGroup; Wait is a native blocking operation.
 type WaitGroup struct {
-	n  int
-	ch chan struct{}
+	n    int
+	ch   chan struct{}
+	real sync.WaitGroup // never blocks: gives the race detector the Done -> Wait edge
 }
 
+//go:norace
 func (w *WaitGroup) Add(d int) {
+	w.real.Add(d)
 	w.n += d
 	if w.n < 0 {
 		panic("sync: negative WaitGroup counter")
@@ -286,19 +307,23 @@ func (w *WaitGroup) Add(d int) {
 	}
 }
 
+//go:norace
 func (w *WaitGroup) Done() { w.Add(-1) }
 
+//go:norace
 func (w *WaitGroup) Wait() {
 	if s := cur(); s != nil && !s.inspect && !s.killing {
 		s.yield(callerSite(2))
 	}
 	if w.n == 0 {
+		w.real.Wait()
 		return
 	}
 	if w.ch == nil {
 		w.ch = make(chan struct{})
 	}
 	Block("WaitGroup.Wait", w.ch)
+	w.real.Wait()
 }
 
 // Cond replaces sync.Cond: Wait is a native blocking operation the scheduler can see.
@@ -307,8 +332,10 @@ type Cond struct {
 	waiters []chan struct{}
 }
 
+//go:norace
 func NewCond(l sync.Locker) *Cond { return &Cond{L: l} }
 
+//go:norace
 func (c *Cond) Wait() {
 	ch := make(chan struct{})
 	c.waiters = append(c.waiters, ch)
@@ -317,6 +344,7 @@ func (c *Cond) Wait() {
 	c.L.Lock()
 }
 
+//go:norace
 func (c *Cond) Signal() {
 	if len(c.waiters) > 0 {
 		close(c.waiters[0])
@@ -324,6 +352,7 @@ func (c *Cond) Signal() {
 	}
 }
 
+//go:norace
 func (c *Cond) Broadcast() {
 	for _, ch := range c.waiters {
 		close(ch)
